@@ -236,6 +236,13 @@ async def scenario(case: dict[str, Any], out: dict[str, Any]) -> None:
                                                  f"of {len(set(got_ids))} channels; missing: {missing} (owner kind {kind})")
     except Exception as e:
         bad("channel-subscribe-raised", f"one stream over all channels (as the only subscriber) raised {describe_exc(e)}")
+    # ---- "always": the attribute still yields the very same bound signal after its subscribers have come and gone (somebody
+    # may have kept it, or a bound method of it such as `emit = obj.changed.dispatch`, from before)
+    for (i, a) in pairs:
+        inc("channels_rechecked_after_all_subscribers_left")
+        if getattr(insts[i], a) is not bound[(i, a)]:
+            bad("channel-not-stable", f"instance {i}.{a} yields a different bound signal once all subscribers of the first one have left")
+            break
     # ---- an instance of a *subclass* of the declared event class is a right-class event: accepted and delivered
     for k in list(bound)[:2]:
         Sub = type("SubEvent", (attr_ev[k[1]],), {"__slots__": ()})
